@@ -656,3 +656,40 @@ func (fc *FuncCtx) IsCopyOf(e ast.Expr, target types.Object) bool {
 	at := fc.G.VertexOf(e)
 	return at >= 0 && copyOfVar(fc, at, o, target, 0)
 }
+
+// EqStrConstEdges returns the edges on which the expression identified by same(e) is known to be
+// equal (equal=true) or unequal (equal=false) to the string constant k, for `e == k`, `e != k`
+// and `switch e { case k: }` in either operand order.
+func (fc *FuncCtx) EqStrConstEdges(same func(e ast.Expr) bool, k string, equal bool) []Edge {
+	info := fc.Info()
+	var out []Edge
+	for _, v := range fc.G.V {
+		x, y, op, ok := condParts(v)
+		if !ok || y == nil || (op != token.EQL && op != token.NEQ) {
+			continue
+		}
+		var other ast.Expr
+		switch {
+		case same(x):
+			other = y
+		case same(y):
+			other = x
+		default:
+			continue
+		}
+		cv, isC := constOf(info, other)
+		if !isC || cv.Kind() != constant.String || constant.StringVal(cv) != k {
+			continue
+		}
+		eqLab := LTrue
+		if op == token.NEQ {
+			eqLab = LFalse
+		}
+		for _, e := range v.Succs {
+			if (e.Label == eqLab) == equal && (e.Label == LTrue || e.Label == LFalse) {
+				out = append(out, e)
+			}
+		}
+	}
+	return out
+}
